@@ -237,8 +237,10 @@ QUIRKS = ("F02", "F24")
 def explained_by(fam, t, d, got, ctx=None):
     """which recorded finding (if any) explains the observation: re-run the reference
     with exactly that one mechanism enabled and compare."""
-    for q in QUIRKS:
-        qref = Ref(fam, quirks=(q,))
+    # each recorded mechanism alone, then both together (one input can run into both: a NamedTuple with defaults whose
+    # first member is a union with a None member); the combination is attributed to the rarer one
+    for q in ("F02", "F24", ("F02", "F24")):
+        qref = Ref(fam, quirks=q if isinstance(q, tuple) else (q,))
         try:
             e = ("ok", qref.dec(t, d, ctx or Ctx()))
         except RefError as ex:
@@ -246,7 +248,7 @@ def explained_by(fam, t, d, got, ctx=None):
         if e[0] != got[0]:
             continue
         if e[0] == "raise" or deep_eq(got[1], e[1], key_order=False):
-            return q
+            return q if isinstance(q, str) else "F24"
     return None
 
 
